@@ -12,6 +12,7 @@ import (
 	"github.com/mimecast/dtail/internal/omode"
 
 	"github.com/mimecast/dtail/internal/lcontext"
+	"github.com/mimecast/dtail/verif/vos"
 	"github.com/mimecast/dtail/verif/vrt"
 )
 
@@ -25,6 +26,8 @@ type c12Case struct {
 	Max    int    `json:"max"`
 	Plain  bool   `json:"plain"`
 	Quiet  bool   `json:"quiet"`
+	// Stdin: the input comes from a pipe on standard input (zcat old.log.gz | dgrep -regex ...) instead of a file
+	Stdin bool `json:"input_from_stdin_pipe,omitempty"`
 }
 
 var c12ProbeLines []string
@@ -81,7 +84,15 @@ func c12Run(c *Ctx, cs c12Case, probe string) {
 		args.NoColor = true
 		args.What = probe
 		args.LogLevel = "error"
-		got = RunClientBody(ClientOpts{Kind: "grep", Args: args})
+		o := ClientOpts{Kind: "grep", Args: args}
+		if cs.Stdin {
+			o.Args.What = ""
+			o.Mutate = func() {
+				vos.S.StdinPipe = true
+				vos.S.StdinData = strings.Join(c12ProbeLines, "\n") + "\n"
+			}
+		}
+		got = RunClientBody(o)
 	})
 	key := ""
 	if nsel > 0 && nsel < len(sel) {
@@ -260,6 +271,14 @@ func c12Cases(thorough bool) (out []c12Case) {
 		for _, inv := range []bool{false, true} {
 			for i, l := range small {
 				out = append(out, c12Case{Regex: r, Invert: inv, Before: l[0], After: l[1], Max: l[2], Plain: i%2 == 0, Quiet: i%3 == 0})
+			}
+		}
+	}
+	// the same request with the input piped into standard input (serverless mode reads the pipe instead of a file)
+	for _, r := range []string{"a", "^a", "a |:", "=|%", ".", "a;$", "^regex:", "(?i)A"} {
+		for _, inv := range []bool{false, true} {
+			for i, l := range small {
+				out = append(out, c12Case{Regex: r, Invert: inv, Before: l[0], After: l[1], Max: l[2], Plain: i%2 == 0, Quiet: i%3 == 0, Stdin: true})
 			}
 		}
 	}
